@@ -4,6 +4,7 @@ import aglib
 import gen
 import qast
 from props.common import *
+from props import ext
 from props import aggoracle
 
 TRUSTED_BASE = ['quantiles::CKMS (percentile sketch) is not modelled: percentile cells are checked against the exact order statistics of the values the model says reached the sketch, within the rank tolerance 0.001*n (+1)',
@@ -140,4 +141,10 @@ def explore(ctx):
     if do['rc'] != 0 or drows != [('a', 2, 0, None, None, None), ('b', 1, 0, None, None, None)]:
         failures.append({'kind': 'spec', 'what': 'aggregates over a DATE argument: %r, expected count 2/1, sum 0, min/max/avg None (a date is not a numeric value)' % (drows,),
                          'payload': {'query': dq, 'input_lines': dl, 'mode': 'json'}})
+    # the percentile sketch: every cell against the transcription of the CKMS sketch (Ckms.v, exact), and against the clause
+    # itself (one of the observed values, rank within the documented tolerance) on lists long enough to be compressed
+    n_k, nt_k, f_k, st_k = ext.ckms_family(rng, quick, ctx.get('known_classes', ()))
+    failures += f_k
+    cov['evaluations'] += n_k
+    cov['percentile_sketch'] = dict(st_k, cells_exactly_equal_to_the_model=n_k - len(f_k), compressed_cells_equal=nt_k)
     return {'coverage': cov, 'failures': failures}
